@@ -115,6 +115,8 @@ structure Consts where
   bigint : Nat
   fencedString : Nat
   usize : Nat
+  rc : Nat            -- `size_of::<Rc<ManagedXValue>>()`
+  vec : Nat           -- `size_of::<Vec<_>>()` (a bucket header)
 
 /-- value shapes as far as `XValue::size` looks at them -/
 inductive Val
@@ -146,6 +148,50 @@ def Val.payload (c : Consts) : Val → Nat
   | .userFunction cells => cells * c.usize
   | .structInstance n => n * c.usize
   | .native _ dyn => dyn
+  | _ => 0
+
+/-! ### the dynamic part of native containers (`XNativeValue::dyn_size`) -/
+
+/-- native container shapes as far as their `dyn_size` impls look at them
+    (`sequence.rs:581-593`, `stack.rs:120-137`, `mapping.rs:225-231`, `set.rs:147-151`, `generators.rs:97-106`,
+    `optional.rs:45-49`) -/
+inductive Native
+  | seqArray (n : Nat)                  -- `XSequence::Array`: n element pointers
+  | seqZip (n : Nat)                    -- `XSequence::Zip` of n sequences
+  | seqChain (parts : Nat)              -- `XSequence::Chain`: parts pointers + (parts - 1) midpoints
+  | seqOther                            -- every lazy variant (range, map, filter, …): 0
+  | stack (owned : Nat) (reachesEnd : Bool)   -- nodes from the head that nobody else references; did the walk reach the end
+  | mapping (buckets len : Nat)         -- `XMapping` with `Rc` values: bucket headers + key pointers + value pointers
+  | set (buckets len : Nat)
+  | genZip (n : Nat)
+  | genChain (n : Nat)
+  | genOther
+  | optional
+deriving DecidableEq, Repr
+
+def Native.dynSize (c : Consts) : Native → Nat
+  | .seqArray n => n * c.rc
+  | .seqZip n => n * c.rc
+  | .seqChain parts => parts * c.rc + (parts - 1) * c.usize
+  | .seqOther => 0
+  | .stack owned reachesEnd => ((owned + if reachesEnd then 1 else 0) + 1) * c.rc
+  | .mapping buckets len => buckets * c.vec + len * c.rc + len * c.rc
+  | .set buckets len => (len + buckets + 2) * c.rc
+  | .genZip n => n * c.rc
+  | .genChain n => n * c.rc
+  | .genOther => 0
+  | .optional => 0
+
+/-- the value pointers the container itself holds (its payload in machine words) -/
+def Native.entries : Native → Nat
+  | .seqArray n => n
+  | .seqZip n => n
+  | .seqChain parts => parts
+  | .stack owned _ => owned
+  | .mapping _ len => 2 * len
+  | .set _ len => len
+  | .genZip n => n
+  | .genChain n => n
   | _ => 0
 
 /-! ### reads of the limit (`Generated.SizeLimitUses`) -/
